@@ -725,26 +725,31 @@ impl TieredEngine {
         &self,
         doc_id: u64,
     ) -> Option<(Vec<f32>, std::collections::HashMap<String, String>)> {
-        if let Some(metadata) = self.cold_tier.fetch_metadata(doc_id) {
-            if let Some((embedding, coherence)) = self.hot_tier.get_with_coherence(doc_id) {
+        // The vector and the metadata must come from ONE canonical read: pairing metadata
+        // fetched first with an embedding fetched later (hot tier or cold tier) returns the
+        // vector of one write with the metadata of another when an overwrite lands in between.
+        if let Some((embedding, metadata)) = self
+            .cold_tier
+            .bulk_fetch(&[doc_id])
+            .into_iter()
+            .next()
+            .flatten()
+        {
+            // Keep the hot-tier accounting and stale-mirror scrubbing of the fast path.
+            if let Some((hot_embedding, coherence)) = self.hot_tier.get_with_coherence(doc_id) {
                 match self.canonical_vector_state(
                     doc_id,
-                    &embedding,
+                    &hot_embedding,
                     coherence,
                     "document-with-metadata hot-tier hit",
                 ) {
-                    CanonicalVectorState::Match => return Some((embedding, metadata)),
                     CanonicalVectorState::TokenMismatch | CanonicalVectorState::LocalCorruption => {
                         self.discard_stale_hot_mirror(doc_id, "document-with-metadata hot-tier hit")
                     }
-                    CanonicalVectorState::Missing => {}
+                    CanonicalVectorState::Match | CanonicalVectorState::Missing => {}
                 }
             }
-            if let Some((embedding, _coherence)) =
-                self.cold_tier.fetch_document_with_coherence(doc_id)
-            {
-                return Some((embedding, metadata));
-            }
+            return Some((embedding, metadata));
         }
 
         if self.hot_tier.exists(doc_id) {
@@ -966,9 +971,21 @@ impl TieredEngine {
                     "bulk query hot-tier hit",
                 ) {
                     CanonicalVectorState::Match => {
-                        if let Some(canonical_metadata) = self.cold_tier.fetch_metadata(doc_id) {
-                            results[i] =
-                                Some((embedding, canonical_metadata, PointQueryTier::HotTier));
+                        // Re-read vector and metadata together: the mirror matched a moment
+                        // ago, but an overwrite may land before the metadata fetch, and the
+                        // pair returned must belong to one write.
+                        if let Some((canonical_embedding, canonical_metadata)) = self
+                            .cold_tier
+                            .bulk_fetch(&[doc_id])
+                            .into_iter()
+                            .next()
+                            .flatten()
+                        {
+                            results[i] = Some((
+                                canonical_embedding,
+                                canonical_metadata,
+                                PointQueryTier::HotTier,
+                            ));
                         } else {
                             warn!(
                                 doc_id,
